@@ -117,6 +117,7 @@ class Check:
                 "analysed": self.analysed,
                 "facts": facts_info or {},
                 "known_findings_reported": [v["key"] for v in kf],
+                "selftest": getattr(self, "selftest", None),
                 "exhaustive": True,
             },
             "assumptions": self.assumptions or ["rustc's type checker and MIR construction are trusted", "only configurations that build offline are analysed"],
